@@ -512,7 +512,17 @@ func writeReplayDir(dir string, P *Program, hs HarnessSpec, ts TierSpec, v Viola
 	sh := fmt.Sprintf(`#!/bin/sh
 # replays the counterexample against the compiled real package
 export GOFLAGS=-mod=mod GOPROXY=off GOSUMDB=off GOTOOLCHAIN=local
-cd %s && VERIF_VECTOR=%s/vector.json timeout 120 go test -tags verif -vet=off -count=1 -overlay %s -run '^%s$' -v %s
+cd %[1]s || exit 2
+out=$(VERIF_VECTOR=%[2]s/vector.json timeout 120 go test -tags verif -vet=off -count=1 -overlay %[3]s -run '^%[4]s$' -v %[5]s 2>&1)
+echo "$out"
+case "$out" in *VERIF-VIOLATION*|*VERIF-PANIC*|*VERIF-HANG*|*VERIF-ASSUME-FAILED*|*"vector mismatch"*) exit 0;; esac
+case "$out" in *VERIF-PASS*)
+  # the vector fixes every choice of the harness, but not those the Go runtime
+  # makes at random (a select with several ready cases): try again a few times
+  echo "# first native run passed; 30 more runs (runtime-chosen select cases)"
+  VERIF_VECTOR=%[2]s/vector.json timeout 600 go test -tags verif -vet=off -count=30 -failfast -overlay %[3]s -run '^%[4]s$' -v %[5]s 2>&1 | grep -E "VERIF-|^(ok|FAIL|---)" | sort | uniq -c
+  ;;
+esac
 `, repoRoot(), dir, ov, run, pkg)
 	return os.WriteFile(filepath.Join(dir, "run.sh"), []byte(sh), 0o755)
 }
